@@ -220,8 +220,63 @@ def run(ctx):
             pts, vt = gen.variant(rng, pts, 0.2)
             fam += vt
         one(ctx, kind, pts, rand_opts(rng, kind), fam)
+    for _ in range(5000 if quick else 60000):
+        refinement_sweep(ctx, sweep_curve(rng), dict(fit=rng.choice(['pointfit', 'pointfit', 'bestfit']), mode=rng.choice(['original', 'original', 'adjusted']),
+                                                      limit=rng.choice([4, 6, 8, 10, 10, 10, 12, 16])))
+
+
+@core.safe_case
+def refinement_sweep(ctx, pts, opts):
+    """'The L-method's iterative refinement terminates for every refinement option': many short curves, the real knee() under the loop
+    guard, and the interior-index clause; nothing else (cheap, so that rare oscillations between two cut-offs are met)."""
+    import kneeliverse.lmethod as lm
+    n = len(pts)
+    case = dict(detector='lmethod', options=opts, points=pts.tolist(), sweep=True)
+    site = f"lmethod.knee[{opts['fit']},{opts['mode']},limit={opts['limit']}]"
+    fit = {'pointfit': lm.Fit.point_fit, 'bestfit': lm.Fit.best_fit}[opts['fit']]
+    it = {'none': lm.Refinement.none, 'original': lm.Refinement.original, 'adjusted': lm.Refinement.adjusted}[opts['mode']]
+    try:
+        k, cnt = core.guarded(lambda: lm.knee(pts, fit=fit, it=it, limit=opts['limit']), 64 * n + 256)
+    except core.LoopBudgetExceeded as e:
+        ctx.fail('predicate', 'terminates', site, case, str(e))
+        return
+    except Exception as e:
+        ctx.fail('predicate', 'completes', site, case, repr(e)[:200])
+        return
+    if k is None or not (1 <= int(k) <= n - 2):
+        ctx.fail('predicate', 'interior-index', site, case, dict(knee=None if k is None else int(k), n=n))
+    ctx.count('refinement-sweep:' + opts['mode'], n=n, nontrivial_key=(pts.tobytes(), str(sorted(opts.items()))) if cnt and cnt > 2 else None,
+              sample=dict(n=n, options=opts, knee=None if k is None else int(k), while_iterations=cnt))
+
+
+def sweep_curve(rng):
+    n = rng.randrange(8, 34)
+    kind = rng.choice(['int-decreasing', 'int-decreasing', 'steps', 'two-elbows'])
+    if kind == 'int-decreasing':
+        y, cur = [], rng.randrange(30, 120)
+        for _ in range(n):
+            y.append(float(cur))
+            cur = max(0, cur - rng.choice([0, 1, 1, 2, 2, 3, 4, 8, 9, 12]))
+    elif kind == 'steps':
+        y, cur = [], 1.0
+        for _ in range(n):
+            y.append(cur)
+            if rng.random() < 0.5:
+                cur = max(0.0, cur - rng.choice([1, 2, 3, 9, 17, 40]) / 256.0)
+    else:
+        a, b = sorted(rng.sample(range(2, n - 2), 2))
+        s1, s2, s3 = rng.choice([-9, -6, -4]), rng.choice([-3, -2, -1]), rng.choice([-1, 0, -0.5])
+        y = [100.0]
+        for i in range(1, n):
+            y.append(y[-1] + (s1 if i <= a else s2 if i <= b else s3) + rng.choice([0, 0, 0.5, -0.5]))
+        mn = min(y)
+        y = [v - mn for v in y]
+    return np.column_stack([np.arange(n, dtype=float), np.array(y, float)])
 
 
 def replay(ctx, body):
     c = body['case']
+    if c.get('sweep'):
+        refinement_sweep(ctx, np.array(c['points'], float), c['options'])
+        return
     one(ctx, c['detector'], np.array(c['points'], float), c['options'], 'replay')
